@@ -87,6 +87,8 @@ func nspRawScripts(t *testing.T, h *H) {
 		finalAttached := []int{}
 		open := true
 		var wrongNsp []string
+		var emitMu sync.Mutex
+		var emitted map[int]int
 		trs := [][]string{{"polling"}, {"websocket"}}[si%2]
 		synctest.Test(t, func(t *testing.T) {
 			r := newRig(nil)
@@ -99,6 +101,9 @@ func nspRawScripts(t *testing.T, h *H) {
 			for _, ns := range served {
 				ns := ns
 				nsp := r.server.Of(nspNames[ns])
+				if emitted == nil {
+					emitted = map[int]int{}
+				}
 				if ns == 6 {
 					nsp.Use(func(sio.ServerSocket, *sio.Handshake) any { return errors.New("rejected") })
 				}
@@ -126,8 +131,13 @@ func nspRawScripts(t *testing.T, h *H) {
 							log("zclosed%d", ns)
 						}
 					})
-					// an outstanding acknowledgement with id 0 in this namespace (ids are per namespace)
-					s.Emit("q", func() { log("ackTo%d:0", ns) })
+					// an outstanding acknowledgement in this namespace: ids are per namespace, 0 for its first socket, 1 for the next (a script can
+					// connect, disconnect and connect a namespace again); the counter below is advanced in step with the library's
+					emitMu.Lock()
+					k := emitted[ns]
+					emitted[ns]++
+					s.Emit("q", func() { log("ackTo%d:%d", ns, k) })
+					emitMu.Unlock()
 				})
 			}
 			p, err := r.rawPeer(trs)
